@@ -269,6 +269,30 @@ class _S:
         return ops.bytes_concat(list(xs))
 
     @staticmethod
+    def pk(code, v):
+        """the packed big-endian field (same uninterpreted pk_* function the struct contract uses)"""
+        from . import libspec
+        if code in 'B?':
+            c = ops.const_int(v)
+            if c is not None:
+                return bytes([c])
+            return Sym(z3.Unit(z3.Int2BV(ops.term(v, 'int'), 8)), 'bytes')
+        t = libspec.pk_fn(code)(ops.term(v, 'int'))
+        ops.set_len(t, libspec.FIELD[code][0])
+        return Sym(t, 'bytes')
+
+    @staticmethod
+    def upk(code, b):
+        from . import libspec
+        if code == 'B':
+            return Sym(z3.BV2Int(ops.term(b)[0]), 'int')
+        return Sym(libspec.upk_fn(code)(z3.simplify(ops.term(b))), 'int')
+
+    @staticmethod
+    def slice(b, lo, hi):
+        return ops.getitem(b if isinstance(b, Sym) else Sym(ops.term(b), 'bytes'), slice(lo, hi), None)
+
+    @staticmethod
     def toint(x):
         """floor of a non-negative real (python int() on non-negative floats)"""
         return Sym(z3.ToInt(ops.term(x, 'real')), 'int')
